@@ -525,6 +525,25 @@ def restart_verify(exe, pdir, freq, B, A, premax, where, out, stats, killat=0):
         for i in sorted(subs - may_o):
             out.append(("restart/cancelled-observation-back/%s" % where,
                         "observation %r had been cancelled and is active after restart" % (i,)))
+        # in a third of the restarts an observer refreshes its registration (same token) before
+        # anything is notified: the Observe value of that reply is one "sent after restart" too
+        import zlib
+        cand = sorted(must_o & subs)
+        if cand and zlib.crc32(("%s/%d/%r" % (where, killat, cand)).encode()) % 3 == 0:
+            peer, tok, name = cand[zlib.crc32(where.encode()) % len(cand)]
+            p = int(peer.split(":")[0].split(".")[3]) - 1
+            mark = len(srv.rx)
+            srv.sim.inject(peer, EP, srv.request(p, 1, name, bytes.fromhex(tok), [(6, b"")]))
+            srv.run()
+            rec = srv.reply_to(p, bytes.fromhex(tok), mark)
+            pm = premax.get(name)
+            if rec is not None and rec["obs"] is not None and rec["code"] == 0x45 and pm is not None:
+                stats["refresh_values_compared"] = stats.get("refresh_values_compared", 0) + 1
+                if not rec["obs"] > pm:
+                    out.append(("restart/observe-value-not-greater/refresh-reply/%s" % where,
+                                "the reply to a registration refresh after restart carries Observe "
+                                "%d for %r; %d had been sent before the kill" %
+                                (rec["obs"], (peer, tok, name), pm)))
         # the client keeps receiving notifications without re-registering
         first = {}
         for rnd in range(2):
@@ -556,6 +575,20 @@ def restart_verify(exe, pdir, freq, B, A, premax, where, out, stats, killat=0):
                 elif (peer, tok) in first and not vs[0] > first[(peer, tok)]:
                     out.append(("restart/observe-value-not-increasing/%s" % where,
                                 "%r: %d then %d" % ((peer, tok, name), first[(peer, tok)], vs[0])))
+            # an observation whose cancellation or whose resource's deletion was interrupted
+            # may or may not be back; when it is back and is notified, the value rule holds for
+            # it as for any other ("greater than any sent before the crash")
+            if rnd == 0:
+                for (peer, tok, name) in sorted((may_o - must_o) & subs):
+                    vs = got.get((peer, tok))
+                    pm = premax.get(name)
+                    if vs and pm is not None:
+                        stats["observe_values_compared"] += 1
+                        if not vs[0] > pm:
+                            out.append(("restart/observe-value-not-greater/%s" % where,
+                                        "first Observe value after restart for %r (its removal "
+                                        "was interrupted) is %d; %d had been sent before the "
+                                        "kill" % ((peer, tok, name), vs[0], pm)))
             for (peer, tok), vs in got.items():
                 if not any(i[0] == peer and i[1] == tok for i in may_o):
                     out.append(("restart/notification-to-non-observer/%s" % where,
